@@ -249,12 +249,13 @@ PROPS = {
         "pkg": "./c20",
         "stages": [
             {"name": "main", "timeout_q": 1500, "timeout_t": 7200, "stall": 150},
+            {"name": "race", "flags": ["-race"], "timeout_q": 1800, "timeout_t": 7200, "stall": 300},
             {"name": "asan", "flags": ["-asan"], "timeout_q": 1800, "timeout_t": 7200, "stall": 300, "tiers": ["thorough"]},
         ],
         "rule": "cases = (a) shuffle permutations: for every n in [1,6000] (thorough 20000) x epochs 0..15 + two random 64-bit epochs, and n = 2^k, 2^k+-1 up to 2^22 plus batch/chunk sizes, x -> VerifShuffleIndex(x,n,epoch) is checked to be a permutation of [0,n) with a bitmap; "
                 "(b) data files written by the harness in which every line is `<id>:<payload>` (a read identifies the line it delivered): every line count 1..300 (thorough 1200) x blank-line variants {none, at the start, single in the middle, runs, at the end, everywhere} x line lengths up to 4000 bytes, "
                 "sampled sizes up to 200001 lines (three batches; chunk boundary 6250; 2^k+-1), and one file larger than the 32 MiB read window with 2.8-4 KB lines straddling the refill boundary. For each file the whole epoch is read through tuning.Batches / tuning.Chunks / Chunker.Open / Chunk.Read and the delivered multiset must equal the non-blank lines byte for byte, "
-                "batches must partition [0,n) and chunks each batch (also with ALL chunks of a batch open at once and read round-robin, as the client's workers do); line content includes trailing carriage returns, tabs, spaces and 0xff bytes; and an arbitrary sub-range [s,t) must deliver exactly the lines at the shuffled indices s..t-1. The tuner packages are rsynced from the working tree into a scratch module; files live under /verif/.build/tmp and are deleted. "
+                "batches must partition [0,n) and chunks each batch (also with ALL chunks of a batch open at once and read round-robin, and with one goroutine per chunk reading concurrently from the shared Chunker, as the client's workers do - the latter also under the race detector); line content includes trailing carriage returns, tabs, spaces and 0xff bytes; and an arbitrary sub-range [s,t) must deliver exactly the lines at the shuffled indices s..t-1. The tuner packages are rsynced from the working tree into a scratch module; files live under /verif/.build/tmp and are deleted. "
                 "evaluations = permutations + files; distinct_nontrivial = distinct n of the exhaustive shuffle range + distinct file sizes.",
         "assumptions": ["documented format: newline-terminated lines below the 4 KiB line-reader buffer; blank lines are skipped", "a shuffle evaluation that does not return is reported by the runner's no-progress watchdog (150 s for work that takes microseconds)"],
         "technique": "runtime monitor: exactly-once / no-loss checker with unique line ids over recorded reads + exhaustive permutation check of the epoch shuffle through an export hook",
